@@ -142,7 +142,8 @@ Fixpoint take_bytes (k : nat) (ch : list (nat * nat)) : list (nat * nat) :=
   | (t, c) :: r => if Nat.leb k c then [(t, k)] else (t, c) :: take_bytes (k - c) r
   end.
 
-Inductive caller := CReadAll | CReadK (k : nat) | CRelease | CKeep | CDrain | CClose | CStream (amt : nat).
+Inductive caller := CReadAll | CReadK (k : nat) | CRelease | CKeep | CDrain | CClose | CStream (amt : nat)
+| CRead1 (k : nat).    (* one read1(k), then the response is dropped *)
 
 (* what happens to the connection afterwards *)
 Inductive after :=
@@ -190,6 +191,26 @@ Definition respond (t : nat) (r : reply) (bl : bool) (rest : list item) (c : cal
         | FEof => (take_bytes (Nat.min k have) all, false, AClosedPut)
         | _ => if short then ([], true, AClosedPut) else (take_bytes k all, false, fin keep it)
         end
+  | CRead1 k =>
+      (* read1 does at most one raw read: what is buffered with the headers, else the next segment *)
+      if bl then ([], false, fin keep rest)
+      else if Nat.ltb 0 (k_first r) then
+        let got := Nat.min k (Nat.min (k_first r) (k_n r)) in
+        ([(t, got)], false, if Nat.eqb got (k_n r) then fin keep rest else ALost)
+      else match k_n r, rest with
+           | O, _ => ([], false, fin keep rest)
+           | _, IData t' c :: more =>
+               let got := Nat.min k (Nat.min c (k_n r)) in
+               (* read1 on an empty buffer reads straight from the socket, at most what it was asked for: a stray that
+                  came in the same segment as the end of the body stays in the socket *)
+               ([(t', got)], false,
+                if Nat.eqb got (k_n r)
+                then fin keep (match k_stray r with SSame => IJunk (stray_tag t) :: more | _ => more end)
+                else ALost)
+           | _, IResp t' _ :: more => ([(t', 1)], false, ALost)
+           | _, IJunk t' :: more => ([(t', 1)], false, ALost)
+           | _, _ => ([], true, AClosedPut)
+           end
   | CRelease => ([], false, fin keep rest)
   | CKeep => ([], false, if keep then APut rest true else AClosedPut)
   | CClose => ([], false, ALost)
